@@ -18,32 +18,32 @@ var registry = map[string]*propSpec{}
 
 func register(s *propSpec) {
 	if extra, ok := laterRules[s.ID]; ok {
-		s.Explanation += " Rules added after seeded waves 8-15 (DESIGN.md 8.1f-8.1m): " + extra
+		s.Explanation += " Rules added after seeded waves 8-16 (DESIGN.md 8.1f-8.1n): " + extra
 	}
 	registry[s.ID] = s
 }
 
 // laterRules: one-line statements of the rules added after the per-property explanations were written.
 var laterRules = map[string]string{
-	"C01": "coinbase-maturity comparisons in the wallet package have the canonical relation; only the owner, the expiry sweep or a confirmed spend ends a lease (C12's rules). Flag bytes are read through single-bit masks. An exported store method reports success only through its worker. The heights the rollback hands to deleteBlockRecord are those of the records it walked; the store's own errors are not dropped (C10-R1). The lease test's outpoint is indexed inside the per-output loop. A confirmed spend releases the lease of exactly the outpoint it spends.",
-	"C02": "an iterator's reposition seeks exactly the position it is given; a rolled back spend restores every credit that still exists (existence asked of the store, not read off the amount); flag bits are typed. The rescan-finished handling always marks the wallet synced; flag bytes are read through masks. A field of Store written after opening is also reset by the rollback; the rollback deletes the block records it walked. Every output of a detached coinbase is swept for unconfirmed spenders (F46).",
+	"C01": "coinbase-maturity comparisons in the wallet package have the canonical relation; only the owner, the expiry sweep or a confirmed spend ends a lease (C12's rules). Flag bytes are read through single-bit masks. An exported store method reports success only through its worker. The heights the rollback hands to deleteBlockRecord are those of the records it walked; the store's own errors are not dropped (C10-R1). The lease test's outpoint is indexed inside the per-output loop. A confirmed spend releases the lease of exactly the outpoint it spends. An outpoint decoded from key bytes has both its hash and its index.",
+	"C02": "an iterator's reposition seeks exactly the position it is given; a rolled back spend restores every credit that still exists (existence asked of the store, not read off the amount); flag bits are typed. The rescan-finished handling always marks the wallet synced; flag bytes are read through masks. A field of Store written after opening is also reset by the rollback; the rollback deletes the block records it walked. Every output of a detached coinbase is swept for unconfirmed spenders (F46). The decode loop of the spender list of an outpoint ends only when the raw value is used up.",
 	"C03": "every address built from a derived extended key is recorded for derive-on-unlock; the account-cache invalidation evicts on every path; no key is used after it or its neutered twin was zeroed; the account schema override is asked for on both branches. Import paths agree on the schema field; imports are lock-gated. A stored key pair is one key and its Neuter(); a derive-on-unlock entry is made for every object that lacks its key. An address's encrypted private key is cleared only by the watch-only conversion; a row serialiser tests its schema for presence only. Derive, commit and the commit callback of every issuing transaction happen under one wallet mutex (C09-R1). The stored next index that moves is the one of the address's own branch; an owned key is found under the pay-to-pubkey form of its address as well (F45 rule).",
-	"C04": "live crypto keys captured by function literals are used under the manager mutex; the unlocked flag is set last. The secrecy class of an imported script is the caller's. Every seal uses a fresh nonce (C17-R2). Random fills cover the whole buffer and digests are compared whole (C17-R2/R3). The conversion of a running manager always wipes (C05-R3); a key counts as tested with IsPrivate only if nothing but Neuter() uses it past the private edge. A put helper stores each ciphertext under the key name of its own class.",
-	"C05": "the unlocked flag is set last; evicted accounts and evicted address objects are wiped first; the wipe primitive loops over the whole slice. No live key is wiped through an aliasing accessor. A rewritten account row keeps its private key; a passphrase is refused only on digest mismatch. An address object built from a private key is in the address cache before it is handed out; a cache miss loads the address asked for. Nothing private is sealed under the public crypto key; the locked flag is tested under the manager mutex by methods that take it.",
-	"C06": "the wallet locker grants an unlock hold only when the manager is not locked; explicit PSBT inputs are distinct; input values handed to the signer are the coins' own amounts. A lease ends only by owner, expiry or confirmed spend (C12-R5). The rollback records the outpoints of vanished coinbase credits with the index at hand. addRelevantTx reports success only after the store insert; structs carried across loop iterations are not re-used stale. The unlock hold spans the creation of the transaction; a recorded unconfirmed spend releases no lease. A re-delivered credit is not written again; a record is keyed by its transaction id (C01-R6).",
+	"C04": "live crypto keys captured by function literals are used under the manager mutex; the unlocked flag is set last. The secrecy class of an imported script is the caller's. Every seal uses a fresh nonce (C17-R2). Random fills cover the whole buffer and digests are compared whole (C17-R2/R3). The conversion of a running manager always wipes (C05-R3); a key counts as tested with IsPrivate only if nothing but Neuter() uses it past the private edge. A put helper stores each ciphertext under the key name of its own class. The package random source is read only through io.ReadFull.",
+	"C05": "the unlocked flag is set last; evicted accounts and evicted address objects are wiped first; the wipe primitive loops over the whole slice. No live key is wiped through an aliasing accessor. A rewritten account row keeps its private key; a passphrase is refused only on digest mismatch. An address object built from a private key is in the address cache before it is handed out; a cache miss loads the address asked for. Nothing private is sealed under the public crypto key; the locked flag is tested under the manager mutex by methods that take it. A field is wiped before it is set to nil, never after.",
+	"C06": "the wallet locker grants an unlock hold only when the manager is not locked; explicit PSBT inputs are distinct; input values handed to the signer are the coins' own amounts. A lease ends only by owner, expiry or confirmed spend (C12-R5). The rollback records the outpoints of vanished coinbase credits with the index at hand. addRelevantTx reports success only after the store insert; structs carried across loop iterations are not re-used stale. The unlock hold spans the creation of the transaction; a recorded unconfirmed spend releases no lease. A re-delivered credit is not written again; a record is keyed by its transaction id (C01-R6). The amount handed to a witness spend helper is inputValues[i] of the input's own i.",
 	"C07": "the change output is sized 8 + prefix + script; the dust test covers the serialized output; the P2PKH script size constant covers the key sizes the wallet holds (known finding F36). SumOutputValues adds every output; each per-kind input count reaches the estimator parameter of its kind. An in-place filter leaves no stale tail. GetMinInputVirtualSize selects each kind's own constants; the fee product's overflow is guarded. The author never writes through the caller's output pointers; the dust test sees the real change script.",
-	"C08": "a cache-miss load uses the address the cache was asked for; readers of hashed buckets hash. The compression choice of an imported WIF is one choice; the account invalidation evicts on every path. Same-named parameters are not passed crosswise; the sync point is written through the manager. Manager.BlockHash answers from the database; only a dry run rolls the issuing transaction back. AccountName answers from the database; NewScopedKeyManager always persists the scope. A rebuilt address object's flags are the row's; a connected block is always written (C15-R2).",
-	"C09": "an address-issuing transaction does not invalidate the account cache. A scope namespace is created exclusively; the two next indices are not exchanged. No commit hook releases the issuing mutex; only a dry run rolls back. Row deserialisers read each fixed-width field at its own offset. Account-cache entries are evicted only by InvalidateAccountCache.",
+	"C08": "a cache-miss load uses the address the cache was asked for; readers of hashed buckets hash. The compression choice of an imported WIF is one choice; the account invalidation evicts on every path. Same-named parameters are not passed crosswise; the sync point is written through the manager. Manager.BlockHash answers from the database; only a dry run rolls the issuing transaction back. AccountName answers from the database; NewScopedKeyManager always persists the scope. A rebuilt address object's flags are the row's; a connected block is always written (C15-R2). PutSyncedTo and updateSyncedTo report success only after their writes (C15-R3).",
+	"C09": "an address-issuing transaction does not invalidate the account cache. A scope namespace is created exclusively; the two next indices are not exchanged. No commit hook releases the issuing mutex; only a dry run rolls back. Row deserialisers read each fixed-width field at its own offset. Account-cache entries are evicted only by InvalidateAccountCache. The issuing mutex is unlocked by the function activation that locked it.",
 	"C10": "between a write and a success return the write's error has been looked at (rule D).",
 	"C11": "the driver entry points hand create/read-only/no-freelist-sync to the opener from their own sources. Nothing in the adapter removes or overwrites the database file.",
-	"C12": "the outpoints handed to a rescan and to the recovery include leased outputs; the stored expiry is the given instant; a lease is not mirrored into the timeless in-memory lock set. Wallet-level lease requests always reach the store. The lease entry points report success only after the hand-over; the lease is asked of the output being judged. Wallet.ListLeasedOutputs visits every lease.",
-	"C13": "record key and output index of a previous-output script fetch come from one source; every input of a mined record is looked at. Flag bytes are read through masks. Summary inputs carry the debit record index. A missing label is not an error; PreviousPkScripts' loops have no early exit. putDebit always writes the debit. The unmined range callback runs only after every unmined record was read.",
-	"C15": "PutSyncedTo leaves no hash above the stamped height; the bitcoind block filter announces every block it is asked to notify; a recovery batch's stamps and transactions share one database transaction. The rescan-finished handling always marks the wallet synced; a stopped chain client is detached. A block-disconnected event is always handed over by the light client. The sync stamps are read under the manager mutex in exported Manager methods. The btcd handler's queue never drops or replaces a waiting notification (C18-R5). A block stamped at the birthday is connected by the light client; every filtered block is handed over.",
-	"C16": "the recovery starts at the birthday block the startup path may just have re-based; the compact-filter watch list covers every request component; a neutrino recovery waits for a synced backend. Row keys of caller-supplied addresses normalise pay-to-pubkey (F45); a failed recovery fails the sync attempt. A filter that cannot be fetched is an error; the length guard admits one-element filters; F5 as it shows in a recovery. Unsigned subtractions in the recovery state are guarded; the birthday search accepts an uncompared block only at a bound of the search. A retried first synchronisation consults the persisted birthday block (F47); next-index guards stay on their branch; Resurrect reports every recorded key. A corrected birthday block always moves the synced-to block; addRelevantTx credits every output.",
-	"C17": "crypto keys are selected and used under the manager mutex (C04-R6). The creating side gets the caller passphrase as well. The derived-passphrase rule also follows the generator indirection (newSecretKey / SecretKeyGenerator). ChangePassphrase reports success only with both writes done (C10-R1); the passphrase key's Encrypt/Decrypt always go through the crypto key's. newSecretKey hands the generator the caller's passphrase.",
+	"C12": "the outpoints handed to a rescan and to the recovery include leased outputs; the stored expiry is the given instant; a lease is not mirrored into the timeless in-memory lock set. Wallet-level lease requests always reach the store. The lease entry points report success only after the hand-over; the lease is asked of the output being judged. Wallet.ListLeasedOutputs visits every lease. An outpoint decoded from a lease key has both its hash and its index.",
+	"C13": "record key and output index of a previous-output script fetch come from one source; every input of a mined record is looked at. Flag bytes are read through masks. Summary inputs carry the debit record index. A missing label is not an error; PreviousPkScripts' loops have no early exit. putDebit always writes the debit. The unmined range callback runs only after every unmined record was read. latestTxRecord returns a record reached by a cursor step after the seek.",
+	"C15": "PutSyncedTo leaves no hash above the stamped height; the bitcoind block filter announces every block it is asked to notify; a recovery batch's stamps and transactions share one database transaction. The rescan-finished handling always marks the wallet synced; a stopped chain client is detached. A block-disconnected event is always handed over by the light client. The sync stamps are read under the manager mutex in exported Manager methods. The btcd handler's queue never drops or replaces a waiting notification (C18-R5). A block stamped at the birthday is connected by the light client; every filtered block is handed over. updateSyncedTo reports success only after the Put of the stamp.",
+	"C16": "the recovery starts at the birthday block the startup path may just have re-based; the compact-filter watch list covers every request component; a neutrino recovery waits for a synced backend. Row keys of caller-supplied addresses normalise pay-to-pubkey (F45); a failed recovery fails the sync attempt. A filter that cannot be fetched is an error; the length guard admits one-element filters; F5 as it shows in a recovery. Unsigned subtractions in the recovery state are guarded; the birthday search accepts an uncompared block only at a bound of the search. A retried first synchronisation consults the persisted birthday block (F47); next-index guards stay on their branch; Resurrect reports every recorded key. A corrected birthday block always moves the synced-to block; addRelevantTx credits every output. AddToBlockBatch only appends to the batch.",
+	"C17": "crypto keys are selected and used under the manager mutex (C04-R6). The creating side gets the caller passphrase as well. The derived-passphrase rule also follows the generator indirection (newSecretKey / SecretKeyGenerator). ChangePassphrase reports success only with both writes done (C10-R1); the passphrase key's Encrypt/Decrypt always go through the crypto key's. newSecretKey hands the generator the caller's passphrase. The package random source is read only through io.ReadFull.",
 	"C18": "a queue-owning client's shutdown always stops the queue; a transaction is announced once per pass; reorganised branches are enqueued in chain order. A goroutine start gated by an atomic flag is gated by an atomic test-and-set. The light client hands a block over before its rescan-finished, announced once, in the finished state. NeutrinoClient.Start stores fresh channels only when stopped; a queue producer waits on its own object's shutdown. RPCClient's started flag is set only where the handler is launched.",
 	"C19": "the upgrade's database transaction rolls back on error and panic (C11-R1 taken over); version writers report failed writes. Everything a migration runs reports failed writes. A migration manager's CurrentVersion propagates a failed version read. The stored version is read with the width it is written with. The latest version is a Number of the version table.",
-	"C20": "the function the recorded transaction is handed to cannot fail before the send without removing it; the backend's answer is the searched text in every error mapping; forgetting a transaction ends no lease. The error matcher is a substring test; only its own rescan switches a rescan-finished off. The store serialises transactions with the witness (MsgTx.Serialize only); the current error table covers every 'already ...' answer an older-generation table can produce. Every backend's broadcast errors go through its MapRPCErr.",
+	"C20": "the function the recorded transaction is handed to cannot fail before the send without removing it; the backend's answer is the searched text in every error mapping; forgetting a transaction ends no lease. The error matcher is a substring test; only its own rescan switches a rescan-finished off. The store serialises transactions with the witness (MsgTx.Serialize only); the current error table covers every 'already ...' answer an older-generation table can produce. Every backend's broadcast errors go through its MapRPCErr. A failed send is reported as success with the record kept only for ErrTxAlreadyInMempool.",
 }
 
 func main() {
